@@ -154,19 +154,19 @@ theorem model_lookup_clamp_1261 (req : Int) :
 
 /-- the hand-copied SX1262 table and lookup of the model give, for EVERY requested power, the row and
 power byte of the regenerated `SX1262_PA_TABLE` / `PaTable::lookup` -/
-theorem lookup_tie_1262 (req : Int) :
+theorem tieA_pa_lookup_1262 (req : Int) :
     paViewG (Gen.PhyArith.SX1262_PA_TABLE.lookup req) = paViewM (Sx126x.sx1262Table.lookup req) := by
   rw [Gen.PhyArith.lookup_clamp _ req 22 rfl, model_lookup_clamp_1262, show Gen.PhyArith.SX1262_PA_TABLE.min_dbm = -9 from rfl]
   exact forall_int_range (-9) 32 (fun k => paViewG (Gen.PhyArith.SX1262_PA_TABLE.lookup k) = paViewM (Sx126x.sx1262Table.lookup k))
     (by decide +kernel) _ (by unfold Spec.Semtech.clampI; omega) (by unfold Spec.Semtech.clampI; omega)
-theorem lookup_tie_1261 (req : Int) :
+theorem tieA_pa_lookup_1261 (req : Int) :
     paViewG (Gen.PhyArith.SX1261_PA_TABLE.lookup req) = paViewM (Sx126x.sx1261Table.lookup req) := by
   rw [Gen.PhyArith.lookup_clamp _ req 15 rfl, model_lookup_clamp_1261, show Gen.PhyArith.SX1261_PA_TABLE.min_dbm = -17 from rfl]
   exact forall_int_range (-17) 33 (fun k => paViewG (Gen.PhyArith.SX1261_PA_TABLE.lookup k) = paViewM (Sx126x.sx1261Table.lookup k))
     (by decide +kernel) _ (by unfold Spec.Semtech.clampI; omega) (by unfold Spec.Semtech.clampI; omega)
 
-#print axioms lookup_tie_1262
-#print axioms lookup_tie_1261
+#print axioms tieA_pa_lookup_1262
+#print axioms tieA_pa_lookup_1261
 
 /-- `Sx126x::<Sx1262>::set_tx_power_and_ramp_time` (with `set_pa_config`, the variant's `get_device_sel` /
 `pa_table`, `PaTable::lookup` and the table constant, all from the current source) IS the model's
@@ -179,7 +179,7 @@ theorem tieA_set_tx_power_and_ramp_time_1262 (self : Gen.PhyEnc1262.Sx126x) (cfg
       = denote (Sx126x.setTxPowerAndRampTime cfg power (mp.map (·.freq)) prep) c log := by
   obtain ⟨chip, tcxo, dcdc, rxb⟩ := cfg
   simp only at hc; subst hc
-  have ht := lookup_tie_1262 power
+  have ht := tieA_pa_lookup_1262 power
   simp only [Gen.PhyEnc1262.Sx126x.set_tx_power_and_ramp_time, Sx126x.setTxPowerAndRampTime, Sx126x.Variant.highPower,
     Sx126x.Variant.paTable, Sx126x.Variant.deviceSel, Sx126x.setPaConfig]
   gen_unfold_helpers_PhyEnc1262
@@ -213,7 +213,7 @@ theorem tieA_set_tx_power_and_ramp_time_1261 (self : Gen.PhyEnc1261.Sx126x) (cfg
       = denote (Sx126x.setTxPowerAndRampTime cfg power (mp.map (fun g => g.frequency_in_hz.toNat)) prep) c log := by
   obtain ⟨chip, tcxo, dcdc, rxb⟩ := cfg
   simp only at hc; subst hc
-  have ht := lookup_tie_1261 power
+  have ht := tieA_pa_lookup_1261 power
   simp only [Gen.PhyEnc1261.Sx126x.set_tx_power_and_ramp_time, Sx126x.setTxPowerAndRampTime, Sx126x.Variant.highPower,
     Sx126x.Variant.paTable, Sx126x.Variant.deviceSel, Sx126x.setPaConfig]
   gen_unfold_helpers_PhyEnc1261
